@@ -7,7 +7,8 @@ BDIR=$(python3 tools/mkbuild.py "$REPO") || exit 2
 mkdir -p "$BDIR/bin" evidence replay
 rc=0
 for id in $(python3 -c "import json;print(' '.join(c['property_id'].lower() for c in json.load(open('MANIFEST.json'))['checks']))"); do
-  if ! go build -tags verif -overlay "$BDIR/overlay.json" -modfile "$BDIR/go.mod" -o "$BDIR/bin/$id" "./checks/$id" 2> "$BDIR/build-$id.log"; then
+  python3 tools/mkbuild.py "$REPO" "$id" > /dev/null || exit 2
+  if ! go build -tags verif -overlay "$BDIR/overlay-$id.json" -modfile "$BDIR/go.mod" -o "$BDIR/bin/$id" "./checks/$id" 2> "$BDIR/build-$id.log"; then
     cat "$BDIR/build-$id.log"; echo "setup: build of $id failed"; rc=1
   fi
 done
